@@ -1040,6 +1040,20 @@ func analyseTimedWait(as AnalysisSpec, progs []*Program, cs *Contracts, funcs []
 			continue
 		}
 		timedPaths := 0
+		// a mutex that some function holds across slow operations (dial, shutdown) is itself an
+		// unbounded wait: the timed function must not acquire it, directly or through a callee
+		for _, g := range strings.Split(as.Args["slow_guards"], ",") {
+			if g = strings.TrimSpace(g); g == "" {
+				continue
+			}
+			for _, p := range progs {
+				if fn := p.Funcs[key]; fn != nil {
+					if via := acquiresGuard(p, fn, g, map[*ssa.Function]bool{}); via != "" {
+						o1.Result, o1.Why = "failed", "acquires "+g+" ("+via+"), a lock held across slow transport operations, without a timer"
+					}
+				}
+			}
+		}
 		for _, pe := range fr.PathEnds {
 			for _, ev := range pe.S.Trace {
 				switch ev.Kind {
@@ -1431,4 +1445,172 @@ func analysePerIteration(as AnalysisSpec, progs []*Program, cs *Contracts, funcs
 	}
 	ar.Summary = fmt.Sprintf("%d loops checked for exactly-once %s per iteration", len(as.Functions), callee)
 	return ar
+}
+
+func init() {
+	analyses["owned-fields"] = analyseOwnedFields
+}
+
+// analyseOwnedFields: each listed field (pkg.Struct.field) holds an object of its own - every store to it,
+// anywhere in the loaded packages, stores a value made (make / new / composite literal) in the storing
+// function itself, so two objects never share it. A store of a parameter, of another object's field or of
+// a global fails. list = fields; nil stores are allowed.
+func analyseOwnedFields(as AnalysisSpec, progs []*Program, cs *Contracts, funcs []*FuncResult, work string, timeout time.Duration) *AnalysisResult {
+	ar := &AnalysisResult{Name: as.Name}
+	var isFresh func(v ssa.Value, depth int) (bool, string)
+	isFresh = func(v ssa.Value, depth int) (bool, string) {
+		if depth > 4 {
+			return false, "value flows through too many locals"
+		}
+		switch x := v.(type) {
+		case *ssa.MakeChan, *ssa.MakeMap, *ssa.MakeSlice:
+			return true, ""
+		case *ssa.Alloc:
+			return x.Heap, "address of a stack cell"
+		case *ssa.Const:
+			return x.IsNil(), "constant"
+		case *ssa.ChangeType:
+			return isFresh(x.X, depth+1)
+		case *ssa.UnOp:
+			if x.Op != token.MUL {
+				return false, "computed value"
+			}
+			cell, ok := x.X.(*ssa.Alloc)
+			if !ok {
+				return false, "loaded from " + x.X.String() + " (not made here)"
+			}
+			if cell.Referrers() == nil {
+				return false, "local without stores"
+			}
+			n := 0
+			for _, r := range *cell.Referrers() {
+				st, ok := r.(*ssa.Store)
+				if !ok {
+					if _, isLoad := r.(*ssa.UnOp); isLoad {
+						continue
+					}
+					if _, isDbg := r.(*ssa.DebugRef); isDbg {
+						continue
+					}
+					return false, "local " + cell.Comment + " has its address taken"
+				}
+				if st.Addr != ssa.Value(cell) {
+					return false, "local " + cell.Comment + " has its address stored"
+				}
+				n++
+				if ok, why := isFresh(st.Val, depth+1); !ok {
+					return false, "local " + cell.Comment + " may hold a value not made here: " + why
+				}
+			}
+			return n > 0, "local never assigned"
+		}
+		return false, fmt.Sprintf("value of kind %T (not made in this function)", v)
+	}
+	for _, key := range as.List {
+		i := strings.LastIndex(key, ".")
+		skey, field := key[:i], key[i+1:]
+		o := &OblResult{Name: "module/owned-field:" + key, Kind: "owned-field", Func: key, Backend: "ssa-walker", Result: "discharged", Desc: "every store to the field stores an object made in the storing function (no two owners share it)"}
+		ar.Obls = append(ar.Obls, o)
+		found := false
+		for _, p := range progs {
+			for _, fn := range p.All {
+				for _, b := range fn.Blocks {
+					for _, in := range b.Instrs {
+						fa, ok := in.(*ssa.FieldAddr)
+						if !ok {
+							continue
+						}
+						st := deref(fa.X.Type())
+						if structKey(st) != skey || st.Underlying().(*types.Struct).Field(fa.Field).Name() != field {
+							continue
+						}
+						found = true
+						if fa.Referrers() == nil {
+							continue
+						}
+						for _, r := range *fa.Referrers() {
+							switch x := r.(type) {
+							case *ssa.Store:
+								if x.Addr != ssa.Value(fa) {
+									o.Result, o.Why = "failed", "address of the field is stored at "+p.Pos(x.Pos())
+									continue
+								}
+								if ok, why := isFresh(x.Val, 0); !ok {
+									o.Result, o.Why = "failed", "stored value at "+p.Pos(x.Pos())+" in "+p.FuncKey(fn)+": "+why
+								}
+							case *ssa.UnOp, *ssa.DebugRef:
+							default:
+								o.Result, o.Why = "failed", fmt.Sprintf("address of the field used by %T at %s in %s", r, p.Pos(r.Pos()), p.FuncKey(fn))
+							}
+						}
+					}
+				}
+			}
+		}
+		if !found {
+			o.Result, o.Why = "failed", "field not found in the loaded packages"
+		}
+	}
+	ar.Summary = fmt.Sprintf("%d fields checked for exclusive ownership", len(as.List))
+	return ar
+}
+
+// acquiresGuard: does fn, or a module function it can reach through static calls, closures it creates
+// or (class-hierarchy style) module implementations of invoked interface methods, lock the mutex field
+// guard ("pkg.Struct.field")? Returns a short description of where, or "".
+func acquiresGuard(p *Program, fn *ssa.Function, guard string, seen map[*ssa.Function]bool) string {
+	if fn == nil || seen[fn] || len(fn.Blocks) == 0 {
+		return ""
+	}
+	seen[fn] = true
+	i := strings.LastIndex(guard, ".")
+	skey, field := guard[:i], guard[i+1:]
+	for _, b := range fn.Blocks {
+		for _, in := range b.Instrs {
+			if mc, ok := in.(*ssa.MakeClosure); ok {
+				if f, ok := mc.Fn.(*ssa.Function); ok {
+					if via := acquiresGuard(p, f, guard, seen); via != "" {
+						return via
+					}
+				}
+			}
+			ci, ok := in.(ssa.CallInstruction)
+			if !ok {
+				continue
+			}
+			c := ci.Common()
+			if c.IsInvoke() {
+				// module implementations of the invoked method
+				for _, cand := range p.All {
+					if cand.Name() == c.Method.Name() && cand.Signature.Recv() != nil && cand.Pkg != nil && strings.HasPrefix(cand.Pkg.Pkg.Path(), p.ModPrefix) {
+						if types.Implements(cand.Signature.Recv().Type(), c.Value.Type().Underlying().(*types.Interface)) {
+							if via := acquiresGuard(p, cand, guard, seen); via != "" {
+								return via
+							}
+						}
+					}
+				}
+				continue
+			}
+			sc := c.StaticCallee()
+			if sc == nil {
+				continue
+			}
+			if sc.Pkg != nil && sc.Pkg.Pkg.Path() == "sync" && (sc.Name() == "Lock" || sc.Name() == "RLock") && len(c.Args) > 0 {
+				if fa, ok := c.Args[0].(*ssa.FieldAddr); ok {
+					st := deref(fa.X.Type())
+					if structKey(st) == skey && st.Underlying().(*types.Struct).Field(fa.Field).Name() == field {
+						return sc.Name() + " in " + p.FuncKey(fn) + " at " + p.Pos(in.Pos())
+					}
+				}
+				continue
+			}
+			if sc.Pkg != nil && strings.HasPrefix(sc.Pkg.Pkg.Path(), p.ModPrefix) {
+				if via := acquiresGuard(p, sc, guard, seen); via != "" {
+					return via
+				}
+			}
+		}
+	}
+	return ""
 }
